@@ -40,6 +40,14 @@ VARIANTS = [
         dict(file=ITP, old="                 'settles': [0],\n", new="")]),
     dict(name='mapping-not-reset', expect='fire', key='IDEM-register|MappingDirector', edits=[
         dict(file=MAP, old="            mapping = self.builder.get_mapping(map_type)\n            self._reset_mapping()\n            return mapping", new="            mapping = self.builder.get_mapping(map_type)\n            return mapping")]),
+    dict(name='prefix-order-truthiness (seed C13_a)', expect='fire', key='DT-reject|prefix-order', edits=[
+        dict(file=FF, old="    if (order_from_attributes is not None\n            and prefix_from_prefix is not None\n            and order_from_attributes != order_from_prefix):",
+             new="    if (order_from_attributes and prefix_from_prefix\n            and order_from_attributes != order_from_prefix):")]),
+    dict(name='itp-index-table-cumulative (seed C13_b)', expect='fire', key='PROV-itp-index-table', edits=[
+        dict(file=ITP, old="        if \"atoms\" in ended_section:\n            self.current_atom_names = list(self.current_block.nodes)\n\n", new=""),
+        dict(file=ITP, old="        context.add_node(index, **dict(collections.ChainMap(attributes, atom)))", new="        context.add_node(index, **dict(collections.ChainMap(attributes, atom)))\n        self.current_atom_names.append(index)")]),
+    dict(name='atom-count-only-when-fewer', expect='fire', key='DT-reject|atom-count', edits=[
+        dict(file=FF, old="    if natoms is not None and len(atoms) != natoms:", new="    if natoms is not None and len(atoms) < natoms:")]),
     # benign
     dict(name='benign-reset-instead-of-guard', expect='silent', edits=[
         dict(file=FF, old="            if not links or links[-1] is not self.current_link:\n                links.append(self.current_link)",
